@@ -8,6 +8,7 @@ Extensions (added after seeds C03/C and C03/D were missed):
  * "ir:<n>:<terms>:<flags>": one flag per block, f = filled as above, e = EMPTY (only the terminator; conditions
    and phi inputs from such a block use the function arguments).  Shapes without any `return` are allowed here
    (empty infinite loops, as the C front end emits for `for(;;){}`).
+ * flag k = filled block whose conditional jump compares two CONSTANTS (what CJumpPass folds).
  * "irh:<name>": hand-written templates with stack slots allocated OUTSIDE the entry block (conditional stores,
    loads at loop bottoms / joins), which the C front end never produces but the IR builder API allows.
 """
@@ -76,7 +77,7 @@ def flagged_names(tier, seed):
     n2 = list(all_names_flagged(2))
     n3 = list(all_names_flagged(3))
     if tier == "quick":
-        return FIXED_FLAGGED + n2 + rnd.sample(n3, 40)
+        return FIXED_FLAGGED + n2 + rnd.sample(n3, 28)
     n4 = []
     ch = term_choices(4)
     while len(n4) < 40:
@@ -87,6 +88,28 @@ def flagged_names(tier, seed):
             if nm not in n4:
                 n4.append(nm)
     return FIXED_FLAGGED + n2 + rnd.sample(n3, 100) + n4
+
+
+def all_names_const_cond(n):
+    """skeletons in which at least one conditional jump compares two CONSTANTS (flag k), mixed with f / e blocks"""
+    ch = term_choices(n)
+    for terms in itertools.product(ch, repeat=n):
+        if not reachable_all(terms):
+            continue
+        for flags in itertools.product("fek", repeat=n):
+            if "k" in flags and all(t[0] == "c" for f, t in zip(flags, terms) if f == "k"):
+                yield f"ir:{n}:" + ".".join(terms) + ":" + "".join(flags)
+
+
+FIXED_CONST_COND = ["ir:2:j1.c11:fk", "ir:3:j1.c21.r:fkf", "ir:3:j1.j2.c21:ffk", "ir:3:c12.r.j1:kff", "ir:3:j1.c21.c11:fkf",
+                    "ir:3:j1.c12.r:fkf", "ir:3:c12.c21.r:kkf", "ir:3:c12.j2.r:kef"]
+
+
+def const_cond_names(tier, seed):
+    rnd = random.Random(seed * 131 + 7)
+    n2 = list(all_names_const_cond(2))
+    n3 = list(all_names_const_cond(3))
+    return FIXED_CONST_COND + n2 + rnd.sample(n3, 24 if tier == "quick" else 250)
 
 
 def names(tier, seed):
@@ -147,6 +170,11 @@ def source(name):
             lines.append(f"    return y{k};")
         elif t[0] == "j":
             lines.append(f"    jmp b{t[1]};")
+        elif flags[k] == "k":
+            # constant condition (what `if (1)`, `while (0)` become): CJumpPass folds it
+            cond = ["<", "==", ">", "!="][k % 4]
+            lines.append(f"    i32 d{k} = {k * 5 + 1};")
+            lines.append(f"    cjmp c{k} {cond} d{k} ? b{t[1]} : b{t[2]};")
         else:
             cond = ["<", "==", ">", "!="][k % 4]
             lines.append(f"    cjmp y{k} {cond} b ? b{t[1]} : b{t[2]};")
